@@ -297,11 +297,13 @@ func (es *EventSystem) consumeEvents() {
 				continue
 			}
 
+			// the read lock is kept until the event is handed over (or dropped): eventLoop closes the
+			// topic channel under the write lock, and a send on a closed channel panics
 			es.indexMux.RLock()
 			ch, ok := es.topicChans[ev.Query]
 			verifhook.At("consumeEvents", "lookup", ev.Query, ch, ok)
-			es.indexMux.RUnlock()
 			if !ok {
+				es.indexMux.RUnlock()
 				es.logger.Debug("channel for subscription not found", "topic", ev.Query)
 				es.logger.Debug("list of available channels", "channels", es.eventBus.Topics())
 				continue
@@ -317,6 +319,7 @@ func (es *EventSystem) consumeEvents() {
 			case ch <- ev:
 				verifhook.At("consumeEvents", "sent", ev.Query, ch)
 			}
+			es.indexMux.RUnlock()
 		}
 
 		time.Sleep(time.Second)
